@@ -96,11 +96,21 @@ func c15Spec(n int) world.Spec {
 			SLO: []world.SLOSpec{{Binding: world.BindPost, Location: "https://sp" + tk + ".example/slo"}},
 		}
 		spec.SPs = append(spec.SPs, sp)
-		spec.Users = append(spec.Users, world.UserSpec{
+		u := world.UserSpec{
 			UserID: "uid-" + tk, LoginName: "login" + tk + "@users.example", Email: "mail" + tk + "@users.example", FullName: "Full " + tk, GivenName: "Given" + tk,
 			Surname: "Sur" + tk, Username: "user" + tk, UserIDAttr: "id" + tk,
 			Custom: []world.CustomAttr{{Name: "custom", FriendlyName: "Custom", NameFormat: "urn:oasis:names:tc:SAML:2.0:attrname-format:basic", Values: []string{"cv1" + tk, "cv2" + tk}}},
-		})
+		}
+		// records differ in shape, not only in values: what one user's record has and another's lacks is where a value left over
+		// from another session shows
+		switch i % 3 {
+		case 1:
+			u.Custom, u.Email, u.FullName = nil, "", ""
+		case 2:
+			u.Custom = []world.CustomAttr{{Name: "department-" + tk, NameFormat: "urn:oasis:names:tc:SAML:2.0:attrname-format:basic", Values: []string{"dept" + tk}}, {Name: "roles-" + tk, Values: []string{"r1" + tk, "r2" + tk, "r3" + tk}}}
+			u.Surname = ""
+		}
+		spec.Users = append(spec.Users, u)
 	}
 	return spec
 }
